@@ -31,7 +31,7 @@ Proof.
   intros N1 N2 Hi. cbv zeta. unfold d_add_edge. rewrite N1, N2, Hi. cbn [orb]. split; [reflexivity|].
   unfold dst_of, dok. cbn [fst]. unfold d_insert_edge. cbn [ts hs].
   destruct (insert_edge_get i tl a (ts d)) as (T & T1 & T2 & T3).
-  destruct (insert_edge_get i hd [] (hs d)) as (H & H1 & H2 & H3).
+  destruct (insert_edge_get i hd [] (ensure_nodes tl (hs d))) as (H & H1 & H2 & H3).
   exists T, H. split; [exact T1|]. split; [exact H1|]. split; [exact T2|]. split; [exact H2|].
-  intro e'. rewrite !ensure_nodes_edge, !bump_uid_edge'. split; [apply T3|apply H3].
+  intro e'. rewrite ensure_nodes_edge, !bump_uid_edge'. split; [apply T3|]. rewrite H3, ensure_nodes_edge. reflexivity.
 Qed.
